@@ -548,7 +548,6 @@ UNSUPPORTED_REFACTORS = {
     "small-book-3": "the loader iterates the saved orders by index (`for i in 0..state.orders.len()`): `state.orders[i]` is an index site the load-abort-free rule does not discharge from the range bound",
     "small-book-5": "`!matches!(status, Status::New)` as the place_order guard and `vol != 0 && best <= price` as the loop guard: the status-guard anchor reads a comparison, not a `matches!` discriminant test",
     "small-env-1": "the instruction is queued inside `create_order(..).map(|id| { push; id })`: the submission rules read the push in the function body, not in a combinator closure",
-    "small-env-2": "append_record is handed `level_2_data()` of the book directly and the snapshot field is assigned from the same local afterwards: the recording rule expects the snapshot field as the argument",
     "small-market-3": "`order_books.each_ref().map(|book| ..)` instead of `array::from_fn(|i| ..)` for the all-asset level-2 query",
     "small-market-5": "`From<Side> for bool` as `!matches!(side, Side::Ask)` and the level-drop test spelled as an early return on `count > 0`: table / drop-condition idioms",
     "feat-python-3": "the Python classes keep their own order count and refuse unknown ids before forwarding: forwarding becomes conditional on "
@@ -614,3 +613,12 @@ import os as _os2
 _FP2 = _os2.path.join(_os2.path.dirname(_os2.path.abspath(__file__)), "refactors", "feat-python-2.diff")
 CASES.append(dict(kind="mutant", name="c19-insert-dict-family-transposed", props=["C19"], patch=_FP2, expect="dict",
                   edits=[("rust/src/types.rs", 'py_data.insert(format!("n_bid_{i}"), n_bids.to_pyarray(py));', 'py_data.insert(format!("n_bid_{i}"), n_asks.to_pyarray(py));')]))
+
+# the level-2 data is READ before the batch is processed and stored after it (C10 fresh-read; the stored snapshot is stale)
+mutant("c10-snapshot-read-before-loop", ["C10", "C11"], [
+    (ENV, "        let mut transactions = mem::take(&mut self.transactions);\n        transactions.shuffle(rng);\n",
+     "        let snapshot = self.order_book.level_2_data();\n        let mut transactions = mem::take(&mut self.transactions);\n        transactions.shuffle(rng);\n"),
+    (ENV, "        self.level_2_data = self.order_book.level_2_data();\n        self.level_2_data_records", "        self.level_2_data = snapshot;\n        self.level_2_data_records")], expect=None)
+refactor("c11-record-from-fresh-value", ["C10", "C11", "C19", "C08"], [
+    (ENV, "        self.level_2_data = self.order_book.level_2_data();\n        self.level_2_data_records.append_record(&self.level_2_data);",
+     "        let level_2_data = self.order_book.level_2_data();\n        self.level_2_data_records.append_record(&level_2_data);\n        self.level_2_data = level_2_data;")])
